@@ -1,7 +1,12 @@
 //! Logic related to the Responder, the components in charge of making sure breaches get properly punished.
 
 use std::collections::HashSet;
+#[cfg(not(feature = "verif"))]
 use std::sync::{Arc, Mutex};
+#[cfg(feature = "verif")]
+use std::sync::Arc;
+#[cfg(feature = "verif")]
+use crate::verif_sync::Mutex;
 
 use bitcoin::hashes::Hash;
 use bitcoin::{consensus, BlockHash};
@@ -1488,5 +1493,23 @@ mod tests {
         // But should be clear after the first block connection
         responder.block_connected(&chain.generate(None), block_range.start as u32);
         assert!(responder.reorged_trackers.lock().unwrap().is_empty());
+    }
+}
+
+#[cfg(feature = "verif")]
+impl Responder {
+    /// Canonical rendering of the in-memory state. Used by the verification harness.
+    pub fn verif_snapshot(&self) -> String {
+        let mut reorged: Vec<String> = self
+            .reorged_trackers
+            .lock()
+            .unwrap()
+            .iter()
+            .map(|u| u.to_string())
+            .collect();
+        reorged.sort();
+        let carrier = self.carrier.lock().unwrap().verif_snapshot();
+        let tx_index = self.tx_index.lock().unwrap().verif_snapshot();
+        format!("carrier={{{carrier}}} reorged={reorged:?} tx_index={{{tx_index}}}")
     }
 }
